@@ -26,16 +26,16 @@ theorem range_mem (n i : Nat) (h : i < n) : i ∈ List.range n := by simpa using
     afterwards -/
 def DeadAssign (g : Cfg) (i : Nat) (d : W Reg) : Prop :=
   callsToFromCfg g (g.get i) = none ∧ (g.get i).node.writesTo = some d ∧
-  RegSet.mem (g.get i).liveOut d.val = false ∧ (g.get i).node.canSkipSaveChecks = false
+  RegSet.mem (g.get i).liveOut d.val = false ∧ (g.get i).node.canSkipSaveChecks = false ∧ d.val ≠ 0
 
 theorem deadAssignment_reported (g : Cfg) (i : Nat) (hi : i < g.nodes.size) (d : W Reg)
     (h : DeadAssign g i d) :
     ∃ x ∈ lintDeadValue g, x.code = "dead-assignment" ∧ x.range = d.tok.range ∧ x.file = d.tok.file := by
-  obtain ⟨hc, hw, hl, hs⟩ := h
+  obtain ⟨hc, hw, hl, hs, hz⟩ := h
   refine ⟨onReg "DeadAssignment" d, ?_, code_of _ _ _ _ _ _ (by decide), rfl, rfl⟩
   unfold lintDeadValue
   rw [List.mem_flatMap]
-  exact ⟨i, range_mem _ _ hi, by simp [deadValueAt, hc, hw, hl, hs]⟩
+  exact ⟨i, range_mem _ _ hi, by simp [deadValueAt, hc, hw, hl, hs, hz]⟩
 
 /-- no dead assignment and no use of a clobbered register after a call ⇔ the pass is silent -/
 theorem deadValue_silent (g : Cfg) :
@@ -50,8 +50,8 @@ theorem deadValue_silent (g : Cfg) :
   · intro h i hi
     have hh := h i (range_mem _ _ hi)
     constructor
-    · intro d ⟨hc, hw, hl, hs⟩
-      simp [deadValueAt, hc, hw, hl, hs] at hh
+    · intro d ⟨hc, hw, hl, hs, hz⟩
+      simp [deadValueAt, hc, hw, hl, hs, hz] at hh
     · intro f nm hc
       simpa [deadValueAt, hc] using hh
   · intro h i hi
@@ -71,8 +71,8 @@ theorem deadValue_silent (g : Cfg) :
         simp only []
         split
         · rename_i hcond
-          simp only [Bool.and_eq_true, Bool.not_eq_true'] at hcond
-          exact absurd ⟨hc, hw, hcond.1, hcond.2⟩ (h1 d)
+          simp only [Bool.and_eq_true, Bool.not_eq_true', bne_iff_ne, ne_eq] at hcond
+          exact absurd ⟨hc, hw, hcond.1.1, hcond.1.2, hcond.2⟩ (h1 d)
         · rfl
 
 /-! ### lost callee-saved value -/
